@@ -580,6 +580,15 @@ def r3(ctx, R):
         edits = q.calls(f, name=("add_edge", "remove_edge", "remove_nodes_from"))
         if not rs or any(q.path_between(f, e, rs[0]) for e in edits):
             R.bad(f, f.node, "unknown space is not refused first", stmt="Space not found")
+    for spec, op in (("UserSpace.add_bases", "add_bases"), ("UserSpace.remove_bases", "remove_bases")):
+        f = ctx.func(spec)
+        cs = q.calls(f, name=op)
+        R.inst("%s: all bases go into one updater transaction" % spec)
+        if len(cs) != 1 or enclosing_for(f, cs[0]) is not None or \
+                [norm(a) for a in cs[0].args] != ["self._impl", "get_impl_list(bases)"] or \
+                norm(cs[0].func.value) != "self._impl.model.updater":
+            R.bad(f, f.node, "a multi-base call is split into several transactions: when a later base is rejected the "
+                             "earlier ones are already committed", stmt="one updater.%s(self._impl, get_impl_list(bases))" % op)
     up = ctx.func("ModelImpl.updater")
     R.inst("ModelImpl.updater: fresh SpaceUpdater per access")
     rr = q.returns(up)
